@@ -167,6 +167,7 @@ type TermBuilder struct {
 	newOrd   map[ssa.Value]int
 	prepared bool
 	busyLoad map[string]bool
+	fallbacks int
 	// LivePred, when set, tells whether the edge pred->blk is live (used to
 	// resolve phis under assumptions).
 	LiveEdge func(from, to *ssa.BasicBlock) bool
@@ -250,15 +251,21 @@ func (tb *TermBuilder) Of(v ssa.Value) *Term {
 		return t
 	}
 	if tb.busy[v] {
-		return &Term{Op: "phi", Name: v.Name() + "@" + tb.Fn.Name(), Val: v}
+		tb.fallbacks++
+		return &Term{Op: "phi", Name: v.Name() + "@" + FuncName(tb.Fn), Val: v}
 	}
 	tb.busy[v] = true
+	before := tb.fallbacks
 	t := tb.build(v)
 	delete(tb.busy, v)
 	if t.Val == nil {
 		t.Val = v
 	}
-	tb.memo[v] = t
+	// a term built while a cycle was being cut contains a placeholder for a value that is still being
+	// built further up; it is only valid for that outer computation and must not be cached
+	if tb.fallbacks == before || len(tb.busy) == 0 {
+		tb.memo[v] = t
+	}
 	return t
 }
 
